@@ -47,7 +47,7 @@ from odl.space.pspace import ProductSpaceElement
 from mc.ref import arith as R
 
 PROPERTY = 'C01'
-BUDGET = {'quick': 600, 'thorough': 3600}
+BUDGET = {'quick': 1500, 'thorough': 3600}
 
 # documented regimes of _lincomb_impl (THRESHOLD_SMALL, THRESHOLD_MEDIUM); only used to NAME
 # the site of a violation and to split large states, never by the oracle
